@@ -16,7 +16,7 @@ type RingCase struct {
 	Ops []Op `json:"ops"`
 }
 
-const maxElems = 24
+const maxElems = 24 // small rings; "newBig"/"ofBig" may add one large ring on top (up to 24+300 elements)
 
 type ringRun struct {
 	c    RingCase
@@ -148,6 +148,12 @@ func (r *ringRun) check() string {
 		if e.IsEmpty() {
 			return r.errf("e%d.IsEmpty() = true for a ring element", id)
 		}
+		// With a large ring in the pool the O(n) walks are made from a sample of
+		// its elements (every 7th, plus both ends of the creation order); small
+		// rings are always checked from every element.
+		if L > 40 && i%7 != 0 && i != len(r.el)-1 {
+			continue
+		}
 		var got []int
 		e.Each(func(v int) bool { got = append(got, v); return len(got) < len(r.el)+8 })
 		if !eqInts(got, c) {
@@ -157,6 +163,9 @@ func (r *ringRun) check() string {
 			return r.errf("e%d.Len() = %d, want %d", id, got, L)
 		}
 		for n := -L - 1; n <= L+1; n++ {
+			if L > 40 && abs(n) > 3 && abs(abs(n)-L) > 1 && n != L/2 && n != -L/3 {
+				continue // large ring: offsets near 0, near +-Len and two interior ones
+			}
 			gotE := e.At(n)
 			gotV, gotOK := e.Peek(n)
 			switch {
@@ -276,6 +285,22 @@ func (r *ringRun) apply(op Op) string {
 			vs[i] = E + 1 + i
 		}
 		return r.register(fmt.Sprintf("Of(%d values)", k), ring.Of(vs...), k, false)
+	case "newBig", "ofBig":
+		// one large ring (sizes around internal block sizes); allowed once per history
+		if E > maxElems {
+			r.skipped++
+			return ""
+		}
+		sizes := []int{31, 32, 33, 63, 64, 65, 70, 96, 97, 127, 128, 129, 200, 256, 257, 300}
+		n := sizes[a%len(sizes)]
+		if op.K == "newBig" {
+			return r.register(fmt.Sprintf("New(%d)", n), ring.New[int](n), n, true)
+		}
+		vs := make([]int, n)
+		for i := range vs {
+			vs[i] = E + 1 + i
+		}
+		return r.register(fmt.Sprintf("Of(%d values)", n), ring.Of(vs...), n, false)
 	case "nil":
 		r.nilOps++
 		var z *ring.Ring[int]
